@@ -37,3 +37,4 @@ def run(ctx, R):
 
 META['level'] += ' The asynchronous test is the first thing get_io_loop does; _inform_* percolate unconditionally; RefCounters created by nodes are bound to self.loop.'
 META['level'] += ' OPTIONS-REACH: loop= / asynchronous= given to any node constructor travel along the constructor chain to Stream.__init__ (where a conflict raises), except for the tabled classes whose keywords belong to the user function.'
+META['level'] += ' LOOP-USE-ENSURES counts a coroutine that sleeps as a user of the loop.'
